@@ -1,7 +1,8 @@
 """Native replay oracle for the method-level properties (C02 C03 C04 C05 C06 C11 C13 C16), run against the REAL iOpt.
 stdin: {"mode": "c02"|..., "seed": int};  stdout (last line): {"failures": [...], "evaluated": n}
 Only used to replay a failed / undecided obligation on the real code (to attach a failing input); never a proof."""
-import sys, json, math, random, io, contextlib
+import sys, json, math, random, io, contextlib, os
+os.environ.setdefault("MPLBACKEND", "Agg")
 import numpy as np
 from iOpt.problem import Problem
 from iOpt.trial import Point, FunctionValue
@@ -386,7 +387,9 @@ def c16(req, out):
 
 
 def c13(req, out):
-    n = 0
+    n = shipped_listeners(out)
+    if out:
+        return n
     for N, kind in ((1, 0), (2, 2)):
         lo, up = boxes(N)[0]
         ref = RecProblem(N, lo, up, kind)
@@ -446,6 +449,61 @@ def c13(req, out):
                                 missing=w))
                 return n
     return n
+
+
+def shipped_listeners(out):
+    """C13 'attaching the shipped console and painting listeners changes neither the trial sequence nor the result': every
+    shipped listener, over its documented parameter combinations (the slow neuro-approximation modes excepted), against the
+    same run without listeners"""
+    import tempfile, shutil, warnings
+    from iOpt.method.listener import (StaticPaintListener, StaticNDPaintListener, AnimationPaintListener,
+                                      AnimationNDPaintListener)
+    tmp = tempfile.mkdtemp(prefix="c13oracle")
+    n = 0
+    try:
+        cfgs = []
+        for bottom in (False, True):
+            for mode in ("objective function", "only points", "interpolation"):
+                cfgs.append((1, lambda b=bottom, m=mode: StaticPaintListener("s.png", tmp + "/", 0, b, m), "StaticPaintListener(%r, bottom=%r)" % (mode, bottom)))
+            for obj in (True, False):
+                cfgs.append((1, lambda b=bottom, o=obj: AnimationPaintListener("a.png", tmp + "/", b, o), "AnimationPaintListener(bottom=%r, objFunc=%r)" % (bottom, obj)))
+        cfgs.append((2, lambda: StaticNDPaintListener("n.png", tmp + "/", [0, 1], "lines layers", "objective function"), "StaticNDPaintListener(lines layers)"))
+        cfgs.append((2, lambda: StaticNDPaintListener("n2.png", tmp + "/", [0, 1], "surface", "interpolation"), "StaticNDPaintListener(surface, interpolation)"))
+        for obj in (True, False):
+            cfgs.append((2, lambda o=obj: AnimationNDPaintListener("an.png", tmp + "/", [0, 1], o), "AnimationNDPaintListener(objFunc=%r)" % obj))
+        ref = {}
+        for N, mk, name in cfgs:
+            lo, up = boxes(N)[0]
+            if N not in ref:
+                p0 = RecProblem(N, lo, up, 2)
+                s0 = Solver(p0, SolverParameters(r=2.5, eps=0.05, itersLimit=25))
+                sol0, _ = quiet(s0.Solve)
+                ref[N] = ([(it.GetX(), it.GetZ()) for it in items(s0)], [float(t) for t in sol0.bestTrials[0].point.floatVariables],
+                          float(sol0.bestTrials[0].functionValues[0].value), sol0.numberOfGlobalTrials)
+            p = RecProblem(N, lo, up, 2)
+            s = Solver(p, SolverParameters(r=2.5, eps=0.05, itersLimit=25))
+            with warnings.catch_warnings():
+                warnings.simplefilter("ignore")
+                s.AddListener(mk())
+                sol, txt = quiet(s.Solve)
+            n += 1
+            # (the painters evaluate the objective themselves to draw it: the call log is not the trial sequence - the search
+            #  information is)
+            got = ([(it.GetX(), it.GetZ()) for it in items(s)], [float(t) for t in sol.bestTrials[0].point.floatVariables],
+                   float(sol.bestTrials[0].functionValues[0].value), sol.numberOfGlobalTrials)
+            if got != ref[N] or p.f(got[1]) != got[2]:
+                out.append(dict(what="attaching the shipped listener %s changes the trial sequence or the result" % name, N=N,
+                                trials_with=sol.numberOfGlobalTrials, trials_without=ref[N][3], point_with=got[1],
+                                point_without=ref[N][1], value_with=got[2], value_without=ref[N][2],
+                                printed=txt[-200:]))
+                return n
+    finally:
+        shutil.rmtree(tmp, ignore_errors=True)
+    return n
+
+
+def c13listeners(req, out):
+    return shipped_listeners(out)
 
 
 def c11(req, out):
@@ -568,6 +626,13 @@ def c05(req, out):
             k0 = len(p.log)
             quiet(s.DoGlobalIteration, 10)
             phase_of += ["g"] * (len(p.log) - k0)
+            sol = s.GetResults()
+            pt0 = [float(t) for t in sol.bestTrials[0].point.floatVariables]
+            val0 = float(sol.bestTrials[0].functionValues[0].value)
+            if abs(val0 - p.f(pt0)) > 1e-12:
+                out.append(dict(what="after further global iterations following a refinement the reported value differs from the "
+                                     "objective at the reported point", round=rnd, N=N, point=pt0, value=val0, objective_at_point=p.f(pt0)))
+                return n
             k0 = len(p.log)
             quiet(s.DoLocalRefinement, 10)
             phase_of += ["l"] * (len(p.log) - k0)
